@@ -235,7 +235,8 @@ func (v dVariant) toks(ids []string, to1 bool) []string {
 // docQueries: what the request URL may carry besides the path; all of it ends up in the self link
 var docQueries = []string{"", "", "?page%5Bsize%5D=2&page%5Bnumber%5D=1",
 	"?page%5Bcursor%5D=c&page%5Bafter%5D=a&page%5Bbefore%5D=b&page%5Bsize%5D=3&page%5Bx%5D=d&page%5By%5D=e",
-	"?sort=-a,n&filter=lbl", "?include=o,m&sort=id"}
+	"?sort=-a,n&filter=lbl", "?include=o,m&sort=id",
+	"?sort=a,-a,n,a&filter=lbl%20two", "?sort=-n,a,n&include=o"} // (rules that name a field twice: the URL keeps what it was given)
 
 var metaClasses = []string{``, `{}`, `{"s":"x"}`, `{"i":1}`, `{"f":1.5}`, `{"b":true}`, `{"n":null}`,
 	`{"o":{"k":[1,"two",{"z":null}]}}`, `{"a":[]}`, `{"big":12345678901234567890,"e":"é<>&"}`}
@@ -789,6 +790,31 @@ func snapshot(live []jsonapi.Resource, url *jsonapi.URL) string {
 	return b.String()
 }
 
+// snapshotDoc: what the document itself says (not its resources): who is included, what relationship
+// data it asks for, its prefix, how many errors and links it carries
+func snapshotDoc(doc *jsonapi.Document) string {
+	var b strings.Builder
+	ids := []string{}
+	for _, r := range doc.Included {
+		id, _ := r.Get("id").(string)
+		ids = append(ids, r.GetType().Name+"/"+id)
+	}
+	sort.Strings(ids)
+	fmt.Fprintf(&b, "D:inc=%q;pre=%q;errs=%d;links=%d;meta=%d;", ids, doc.PrePath, len(doc.Errors), len(doc.Links), len(doc.Meta))
+	for _, t := range sortedKeys(doc.RelData) {
+		fmt.Fprintf(&b, "rd[%s]=%v;", t, sortedIDs(doc.RelData[t]))
+	}
+	switch x := doc.Data.(type) {
+	case nil:
+		b.WriteString("data=nil")
+	case jsonapi.Collection:
+		fmt.Fprintf(&b, "data=col%d", x.Len())
+	default:
+		fmt.Fprintf(&b, "data=%T", x)
+	}
+	return b.String()
+}
+
 func permuteDoc(d dDoc, rng *rand.Rand) dDoc {
 	p := d
 	shuf := func(s []string) []string {
@@ -865,6 +891,18 @@ func runDocCase(c dCase) dEvent {
 			doc.PrePath = was
 			url.Params.Fields = full
 		}
+		if c.Var.Meta%4 == 2 {
+			// a marshal that fails at the very end came just before (a document whose meta no JSON can
+			// hold): whatever it left behind is nothing to this one
+			bad := &jsonapi.Document{Data: nil, Meta: map[string]interface{}{"nan": math.NaN()}, Included: doc.Included}
+			if other, urlb, _ := newDocWorld(c.Var, c.Seed+99).build(dDoc{Kind: "one", Coll: "none", Primary: []dRes{randDocRes(rand.New(rand.NewSource(c.Seed)), "t1", "q")}}); other != nil {
+				other.Meta = bad.Meta
+				_, _ = jsonapi.MarshalDocument(other, urlb)
+				other.Errors = testErrors(2)
+				other.Data = nil
+				_, _ = jsonapi.MarshalDocument(other, urlb)
+			}
+		}
 		if c.Var.Busy {
 			stop := make(chan struct{})
 			var wg sync.WaitGroup
@@ -898,7 +936,7 @@ func runDocCase(c dCase) dEvent {
 			}
 			defer func() { close(stop); wg.Wait() }()
 		}
-		before := snapshot(live, url)
+		before := snapshot(live, url) + snapshotDoc(doc)
 		payload, err := jsonapi.MarshalDocument(doc, url)
 		if err != nil {
 			merr = err
@@ -919,7 +957,7 @@ func runDocCase(c dCase) dEvent {
 				}
 			}
 		}
-		ev.Det.FrameOK = snapshot(live, url) == before
+		ev.Det.FrameOK = snapshot(live, url)+snapshotDoc(doc) == before
 		// fresh builds of the same content, and of permuted content
 		rng := rand.New(rand.NewSource(c.Seed + 17))
 		for i := 0; i < 3; i++ {
@@ -1336,6 +1374,11 @@ func docMain(args []string) {
 			d.Included = append(d.Included, twin)
 			d.HandDup = true
 			stt.class("included-holds-a-primary-resource")
+		}
+		if d.Kind == "errors" && rng.Intn(3) == 0 {
+			// a document that reports errors may still hold what its handler had gathered: it is not
+			// written, and it stays in the document
+			d.Included = append(d.Included, randDocRes(rng, "t2", "u"))
 		}
 		if d.Kind == "one" && len(d.Included) > 0 && !d.HandDup && rng.Intn(6) == 0 {
 			d.Unenc = true
